@@ -51,7 +51,7 @@ def run(ctx):
     caught = F.sensitivity(ctx, DEVS)
     rep = F.replay(ctx, runs)
     recs = wiring(ctx)
-    ntr, nops = (25, 50) if ctx.quick() else (400, 90)
+    ntr, nops = (25, 50) if ctx.quick() else (1200, 100)
     tr = F.traces(ctx, "TestZZVFloodTrace", {"ZZV_TRACES": ntr, "ZZV_OPS": nops, "ZZV_HOPS": "small"}, "c15trace")
     F.report(ctx, "C15", rep, [tr])
     st, trn = F.coverage(runs)
